@@ -457,14 +457,23 @@ func checkC19(w *World, r *Report) {
 					success = l.Val
 				}
 			}
+			// a wrapped error is nil exactly when its cause is (`return nil, errors.Wrap(err, …)` behind err == nil)
+			ret1 := p.Ret[1]
+			if inner := unwrapErrAP(ret1); inner != ret1 {
+				for _, l := range p.Lits {
+					if l.Val && l.Atom.Op == "==" && l.Atom.L == inner && l.Atom.R == "nil" {
+						ret1 = "nil"
+					}
+				}
+			}
 			if success {
 				nSucc++
 				// (the file itself, or something built from it)
-				if !strings.Contains(p.Ret[0], open+"#0") || p.Ret[1] != "nil" {
+				if !strings.Contains(p.Ret[0], open+"#0") || ret1 != "nil" {
 					okO = false
 					detail = "after a successful open it returns (" + p.Ret[0] + ", " + p.Ret[1] + ")"
 				}
-			} else if p.Ret[1] == "nil" {
+			} else if ret1 == "nil" {
 				okO = false
 				detail = "it returns a nil error without a successful open (path " + p.LitString() + ")"
 			}
